@@ -23,9 +23,12 @@ def gen_cases(run, n, prefix="c"):
     schema = None
     for i in range(n):
         if i % 3 == 0:
-            schema = gen_schema(rng, odd_type_names=(i % 6 == 0), narrowing=0.35 if i % 2 else 0.0)
+            schema = gen_schema(rng, odd_type_names=(i % 6 == 0), narrowing=0.35 if i % 2 else 0.0, unknown_member=(i % 12 == 6 and i % 15 != 12))
         doc, feats = gen_document(schema, rng)
         other = (i % 2 == 1)
+        if "Unknown" in schema.types and i % 5 != 4:
+            other = False      # a member type literally called `Unknown`, option off: an unknown __typename must still be an error
+            run.count("member-type-named-Unknown")
         opts = {"other_variant": other, "skip_none": rng.random() < 0.2}
         if rng.random() < 0.3:
             opts["normalization"] = "rust"
